@@ -261,6 +261,13 @@ def _emit_access_log(
         }
         if cancelled:
             extra["cancelled"] = True
+        if status == "error" and not error_message:
+            # The schema requires a non-empty error_message on every error
+            # record, whatever the exception text.  ``raise ValueError("")``
+            # (or any exception whose ``str()`` is empty) used to leave the
+            # field out, so the record failed validation.  The class name is
+            # all such an exception has to report.
+            error_message = error_type or "error"
         if error_message:
             extra["error_message"] = error_message
         if server_version:
